@@ -55,7 +55,7 @@ def _plan(draw, max_rows):
         name = "unique"
     elif special == 3:
         # key values whose hashes coincide (-1 / -2, 0 / 2**61 - 1, 1969-12-31 / 1969-12-30, inf / 314159.0 ...)
-        fp = draw(gen.frame_plan(kinds=["i", "f", "d", "td", "t", "i8", "oi"], max_rows=max_rows, max_cols=3, min_cols=1,
+        fp = draw(gen.frame_plan(kinds=["i", "f", "d", "td", "t", "i8", "oi", "s", "s"], max_rows=max_rows, max_cols=3, min_cols=1,
                                  prefix="c", mode="twins"))
         name = draw(st.sampled_from(["unique", "unique", "unique", "drop_na", "filter_kv"]))
     elif special == 4 and draw(st.booleans()):
@@ -104,8 +104,8 @@ def _plan(draw, max_rows):
             c = cols[j]
             # "" (the string NA sentinel) and None on object columns are ordinary == matches in NumPy;
             # the statement does not fix their semantics, so they are not used as filter values.
-            # (NumPy also strips trailing NULs from a *scalar* compared with a string array: 'a\0' == 'a'.)
-            sentinel = lambda x: (c["kind"] in ("s", "u") and (x == "" or x.endswith("\x00"))) or (c["kind"] in ("o", "oi", "ob") and x is None)
+            # (NumPy also cuts a *scalar* compared with a string array at its first NUL: 'a\0' == 'a', 'a\0b' == 'a\0c'.)
+            sentinel = lambda x: (c["kind"] in ("s", "u") and (x == "" or "\x00" in x)) or (c["kind"] in ("o", "oi", "ob") and x is None)
             cand = [v for v in c["vals"] if not sentinel(v)]
             src = st.sampled_from(cand) if cand and draw(st.integers(0, 3)) else gen.value(c["kind"], "tight")
             v = draw(src)
